@@ -38,7 +38,8 @@ tensor4d_cmap_t targets_iterator_t::targets(tensor4d_map_t data) const
 
 tensor4d_cmap_t targets_iterator_t::targets(size_t tnum, const tensor_range_t& range) const
 {
-    if (m_targets.size<0>() == m_samples.size())
+    // NB: the cached values are only usable if scaled with the current method!
+    if (m_targets.size<0>() == m_samples.size() && m_targets_scaling == m_scaling)
     {
         return m_targets.slice(range);
     }
@@ -66,7 +67,8 @@ bool targets_iterator_t::cache_targets(tensor_size_t max_bytes)
                     const auto samples     = m_samples.slice(range);
                     m_targets.slice(range) = targets(dataset().targets(samples, m_targets_buffers[tnum]));
                 });
-            cached = true;
+            cached            = true;
+            m_targets_scaling = m_scaling;
         }
         catch (...) // NOLINT(bugprone-empty-catch)
         {
@@ -104,7 +106,8 @@ tensor2d_cmap_t flatten_iterator_t::flatten(size_t tnum, const tensor_range_t& r
     const auto& samples = this->samples();
     const auto& dataset = this->dataset();
 
-    if (m_flatten.size<0>() == samples.size())
+    // NB: the cached values are only usable if scaled with the current method!
+    if (m_flatten.size<0>() == samples.size() && m_flatten_scaling == scaling())
     {
         return m_flatten.slice(range);
     }
@@ -136,7 +139,8 @@ bool flatten_iterator_t::cache_flatten(tensor_size_t max_bytes)
                     const auto range       = make_range(begin, end);
                     m_flatten.slice(range) = flatten(dataset.flatten(samples.slice(range), m_flatten_buffers[tnum]));
                 });
-            cached = true;
+            cached            = true;
+            m_flatten_scaling = scaling();
         }
         catch (...) // NOLINT(bugprone-empty-catch)
         {
